@@ -4,6 +4,7 @@ From MD Require Import Proofs.Base64Proofs Proofs.HexProofs Proofs.UtfProofs Pro
 From MD Require Import Model.EngineR Model.Default Model.Flatten Proofs.DefaultWf Proofs.DefaultEngine Proofs.ChainProofs.
 From MD Require Import Regex.LocalityProofs Proofs.RoundTrip.
 From MD Require Import Regex.LocalityProofs Proofs.RoundTrip Proofs.RoundTrip2.
+From MD Require Import Regex.LocalityProofs Proofs.RoundTrip Proofs.RoundTrip2 Proofs.RoundTrip3 Proofs.RoundTrip4 Proofs.RoundTrip5 Proofs.RoundTrip6.
 
 (* base64 (bare and the three call forms): a2b_base64 (b64_encode p) = p for every payload *)
 Theorem C02_layer_base64 : forall p : bytes, wf_bytes p -> a2b_base64 (b64_encode p) = Ok p.
@@ -177,6 +178,22 @@ Print Assumptions C02_layer_ps_replace_found.
 Theorem C02_layer_concat_found : forall (pre : list N) (q : N) (p : bytes) (js : list cpart) (suf : bytes), is_quote q -> part_ok p = true -> Forall cpart_ok js -> js <> [] -> concat_stop (last_q q js) suf = true -> (Datatypes.length (concat_form q p js) + Datatypes.length (take_wsu suf) + 150 <= Backtrack.default_fuel)%nat -> neutral Regexes.RE_concat_CONCAT_RE pre = true -> let form := concat_form q p js in let data := pre ++ form ++ suf in find_concat data = Hang \/ (exists rest : list node, find_concat data = Ok (Node (s2b "string") (concat_payload p js) (s2b "concatenation") (blen pre) (blen pre + blen form) [] :: rest) /\ Forall (fun nd : node => blen pre + blen form <= n_st nd) rest).
 Proof. exact find_concat_roundtrip. Qed.
 Print Assumptions C02_layer_concat_found.
+
+Theorem C02_layer_carets_found : forall (pre : list N) (e p suf : bytes), cmd_unescape e = p -> forallb nn_byte e = true -> par_ok e 0 = true -> cmd_end_ok e suf = true -> neutral Regexes.RE_shell_CMD_RE pre = true -> Backtrack.word_at (rev pre) = false -> (Datatypes.length e + Datatypes.length suf + 90 <= Backtrack.default_fuel)%nat -> let form := s2b "cmd /c " ++ e in let data := pre ++ form ++ suf in Shell.find_cmd_strings data = Hang \/ (exists rest : list node, Shell.find_cmd_strings data = Ok (Node (s2b "shell.cmd") (s2b "cmd /c " ++ p) (if beqb p e then [] else carets_label) (blen pre) (blen pre + blen form) [] :: rest) /\ Forall (fun nd : node => blen pre + blen form <= n_st nd) rest).
+Proof. exact find_cmd_strings_caret_layer. Qed.
+Print Assumptions C02_layer_carets_found.
+
+Theorem C02_layer_hex_found : forall (pre : list N) (p suf : bytes), wf_bytes p -> (10 <= Datatypes.length p)%nat -> hex_stop_lower suf = true -> (Datatypes.length (hexlify p) + 64 <= Backtrack.default_fuel)%nat -> neutral Regexes.RE_hex_HEX_RE pre = true -> let form := hexlify p in let data := pre ++ form ++ suf in find_hex data = Hang \/ (exists rest : list node, find_hex data = Ok (Node [] p DEC_HEX (blen pre) (blen pre + blen form) [] :: rest) /\ Forall (fun nd : node => blen pre + blen form <= n_st nd) rest).
+Proof. exact find_hex_roundtrip_lower. Qed.
+Print Assumptions C02_layer_hex_found.
+
+Theorem C02_layer_HEX_found : forall (pre : list N) (p suf : bytes), wf_bytes p -> (10 <= Datatypes.length p)%nat -> hex_stop_upper suf = true -> upper_has_letter (upper (hexlify p)) = true -> (Datatypes.length (hexlify p) + 64 <= Backtrack.default_fuel)%nat -> neutral Regexes.RE_hex_HEX_RE pre = true -> let form := upper (hexlify p) in let data := pre ++ form ++ suf in find_hex data = Hang \/ (exists rest : list node, find_hex data = Ok (Node [] p DEC_HEX (blen pre) (blen pre + blen form) [] :: rest) /\ Forall (fun nd : node => blen pre + blen form <= n_st nd) rest).
+Proof. exact find_hex_roundtrip_upper. Qed.
+Print Assumptions C02_layer_HEX_found.
+
+Theorem C02_layer_base64_found : forall (pre : list N) (p suf : bytes), wf_bytes p -> (16 <= Datatypes.length p)%nat -> b64_acceptable (b64_encode p) = true -> b64_stop suf = true -> (Datatypes.length (b64_encode p) + 64 <= Backtrack.default_fuel)%nat -> neutral Regexes.RE_base64_BASE64_RE pre = true -> let form := b64_encode p in let data := pre ++ form ++ suf in find_base64 data = Hang \/ (exists rest : list node, find_base64 data = Ok (Node [] p ENC_B64 (blen pre) (blen pre + blen form) [] :: rest) /\ Forall (fun nd : node => blen pre + blen form <= n_st nd) rest).
+Proof. exact find_base64_roundtrip. Qed.
+Print Assumptions C02_layer_base64_found.
 
 Example C02_example :
   a2b_base64 (b64_encode (L"GET http://evil.example.com/payload.exe now")) = Ok (L"GET http://evil.example.com/payload.exe now")
